@@ -13,6 +13,8 @@ BLOBREAL = dict(pkg="./cache/disk/casblob", test="TestVerifBlobRealCodec", name=
 
 DISK = dict(pkg="./cache/disk", test="TestVerifDiskCorrespondence", name="disk", diff=True)
 
+AUTH = dict(pkg=".", test="TestVerifAuthExhaustive", name="auth", diff=True)
+
 COMMON_TB = [
     "goroutine scheduling, sync.Mutex and the file system are modelled (atomic lock regions, process-visible file state), not verified",
 ]
@@ -62,6 +64,11 @@ PROPS = {
         lean="BR.Props.C18", runs=[DISK], trusted_base=COMMON_TB, assumptions=[],
         level_text="Theorems on M4: Put refuses sizes above max_blob_size with a client error and unchanged state, accepts the limit itself; nothing above max_proxy_blob_size is fetched, cached or reported present on the strength of the back end.",
         level_note=NOTE + "handler-level guards tied by server correspondence runs.", technique=TECH),
+    "C13": dict(
+        lean="BR.Props.C13", runs=[AUTH], trusted_base=["crypto/tls, net/http, grpc-go and go-http-auth implement the handshake / header parsing the model takes as given"],
+        assumptions=["LDAP authentication (experimental) is not modelled"],
+        level_text="Decision model of the HTTP wrappers / certificate checks and gRPC interceptors; theorems for every configuration, endpoint, credential state and every gRPC method name (universally quantified); the real startHttpServer/startGrpcServer enumerated exhaustively over the whole finite domain against the model.",
+        level_note="Lean 4 kernel; readOnlyMethods / health name / registered services regenerated from the source (Bridge.Auth); the correspondence is exhaustive, not sampled.", technique=TECH),
 }
 
 _root = os.path.dirname(os.path.dirname(os.path.abspath(__file__)))
